@@ -39,6 +39,7 @@ var (
 	flagMinBudg  = flag.Duration("minbudget", 45*time.Second, "wall-clock budget for minimisation per violation")
 	flagDeadline = flag.Duration("deadline", 0, "wall-clock budget for this worker (0 = none)")
 	flagList     = flag.Bool("list", false, "list registered checks")
+	flagSUTLog   = flag.Bool("sutlog", false, "print spynode's own log (debugging)")
 	flagSub      = flag.String("sub", "", "restrict to one sub-check of the property (debugging)")
 )
 
@@ -594,7 +595,14 @@ func doReplay(t *testing.T) {
 }
 
 // quietCtx is a context whose logger discards everything.
-func quietCtx() context.Context { return logger.ContextWithNoLogger(context.Background()) }
+func quietCtx() context.Context {
+	if *flagSUTLog {
+		cfg := logger.NewConfig(true, true, "")
+		cfg.EnableSubSystem("SpyNode")
+		return logger.ContextWithLogConfig(context.Background(), cfg)
+	}
+	return logger.ContextWithNoLogger(context.Background())
+}
 
 func sortedKeys(m map[string]int) []string {
 	out := make([]string, 0, len(m))
